@@ -296,6 +296,21 @@ pub fn run_history(v: &Value, hid: u64) -> Vec<String> {
                     ("ok".into(), String::new())
                 }
                 "recompute" => res_of(pp.recompute()),
+                "insert" if o.get("raw").is_some() => {
+                    // a record built with RR::new from explicit fields (any type, OPT included)
+                    let w = &o["raw"];
+                    let t = vbytes(&w["ttl"]);
+                    let hdr = dnssector::synth::r#gen::RRHeader {
+                        name: vbytes(&w["name"]),
+                        ttl: u32::from_be_bytes([t[0], t[1], t[2], t[3]]),
+                        class: Class::from_string(w["class"].as_str().unwrap_or("IN")).unwrap_or(Class::IN),
+                        rr_type: Type::from_string(w["type"].as_str().unwrap_or("A")).unwrap_or(Type::A),
+                    };
+                    res_of(
+                        dnssector::synth::r#gen::RR::new(hdr, &vbytes(&w["rdata"]))
+                            .and_then(|rr| pp.insert_rr(section_of(o["sec"].as_str().unwrap_or("AN")), rr)),
+                    )
+                }
                 "insert" => res_of(pp.insert_rr_from_string(section_of(o["sec"].as_str().unwrap_or("AN")), o["text"].as_str().unwrap_or(""))),
                 "insert_q" => {
                     let name = vbytes(&o["name"]);
